@@ -335,6 +335,8 @@ def finish(ctx, level_rule, assumptions, exhaustive=False, trusted=None):
         log("KNOWN-FINDING: property=%s %s [%s] (%d events)" % (pid, k["what"], kid, n))
     if others:
         log("note: events also rejected under other properties (reported by their own checks): %s" % others)
+        with open(ctx.path("other-bads.json"), "w") as f:
+            json.dump([b for b in ctx.bads if b["prop"] != pid][:200], f, indent=1, default=str)
     replay = None
     if violations:
         # group by normalised reason; one replay file per group (first few)
